@@ -150,6 +150,8 @@ def xhistory(rng, cfg):
                 if rng.random() < 0.3:
                     d["nan"] = rng.choice([[0], [1], [0, 2], [0, 1, 2]])
     if cfg.get("flow"):
+        cfg["img_mode"] = rng.choice(cc.IMG_MODES)
+        cfg["img_scale"] = rng.choice([1.0, 1.0, 0.5])
         r = rng.random()
         if r < 0.25 and len(hist) > 1:                               # uniform frames from some frame on
             cfg["blank"] = list(range(rng.randrange(0, len(hist)), len(hist)))
